@@ -281,9 +281,11 @@ class InodeOpen(Base):
         a.fp = c.afile(a.F, c.int('F_pos', 0))
         if self.managed:
             return self.setup_managed(c)
-        a.orig = c.int('orig_extent_loc', 0)
+        # type invariants of an Inode: extents are 32-bit on-disc fields; the offset into an external file object is a position that
+        # file gave out (a C ssize_t) - beyond those, seek() itself refuses the position with OverflowError
+        a.orig = c.int('orig_extent_loc', 0, 2 ** 32 - 1)
         a.new = c.int('new_extent_loc', -1)
-        a.fpoff = c.int('fp_offset', 0)
+        a.fpoff = c.int('fp_offset', 0, 2 ** 63 - 1)
         a.n = c.int('data_length', 0)
         a.lbs = 2048
         ino = c.obj('pycdlib.inode.Inode', _initialized=True, manage_fp=False, data_fp=a.fp, original_data_location=self.location,
@@ -293,7 +295,7 @@ class InodeOpen(Base):
 
     def setup_managed(self, c):
         a = c.a
-        a.orig = c.int('orig_extent_loc', 0)
+        a.orig = c.int('orig_extent_loc', 0, 2 ** 32 - 1)
         a.new = c.int('new_extent_loc', -1)
         a.fpoff = c.int('fp_offset', 0, 1 << 40)
         a.n = c.int('data_length', 0)
